@@ -1455,7 +1455,10 @@ func (m *StateMachine) beginCommit(
 			"round", rlc.R,
 			"committing_hash", glog.Hex(vrv.VoteSummary.MostVotedPrecommitHash),
 		)
-		return
+
+		// Not a failure: handleCommitWaitViewUpdate makes the finalize request
+		// once a view update carries the proposed header.
+		return true
 	}
 
 	return gchan.SendC(
